@@ -1,8 +1,11 @@
 package support
 
+import "sync"
+
 type Supporter struct {
-	progress int  // The progress of the analysis
-	stop     bool // If the analysis is stoped
+	progress int        // The progress of the analysis
+	stop     bool       // If the analysis is stoped
+	mux      sync.Mutex // protects progress and stop (workers update them concurrently)
 }
 
 // Returns the progress of the analysis
@@ -15,21 +18,29 @@ func NewSupporter() *Supporter {
 
 // Returns the progress of the analysis
 func (sup *Supporter) Progress() int {
+	sup.mux.Lock()
+	defer sup.mux.Unlock()
 	return sup.progress
 }
 
 // Increments the progress of the analysis
 func (sup *Supporter) IncrementProgress() {
+	sup.mux.Lock()
 	sup.progress++
+	sup.mux.Unlock()
 }
 
 // Tells the supported to stop the analysis
 // It will just finish the current computations
 func (sup *Supporter) Cancel() {
+	sup.mux.Lock()
 	sup.stop = true
+	sup.mux.Unlock()
 }
 
 // Tells if hasbeen canceled or not
 func (sup *Supporter) Canceled() bool {
+	sup.mux.Lock()
+	defer sup.mux.Unlock()
 	return sup.stop
 }
